@@ -114,6 +114,35 @@ def corner_population(rnd, year, n_hh):
     return pop
 
 
+def elterngeld_grid(rnd, year):
+    """single parents with a newborn and a two-year-old (sibling bonus), Elterngeld claimed, over a grid of prior net incomes x wage during receipt"""
+    pop = []
+    grid = [(y, w) for y in (0.0, 300.0, 1000.0, 1240.0, 2000.0, 2770.0, 4000.0, 9000.0, 1e6) for w in (0.0, 450.0)]
+    for j, (y, w) in enumerate(grid):
+        hh = popgen.population(rnd, year, 1, templates=["single_parent"], id_style="dense")
+        tries = 0
+        while sum(1 for q in hh if q["kind"]) < 2 and tries < 100:
+            hh = popgen.population(rnd, year, 1, templates=["single_parent"], id_style="dense")
+            tries += 1
+        kids = 0
+        for q in hh:
+            off = 700000 + 100 * j
+            q["p_id"] += off
+            q["hh_id"] += off
+            for k2 in list(q):
+                if k2.startswith("p_id_") and q[k2] >= 0:
+                    q[k2] += off
+            if q["kind"]:
+                q["alter"] = (0, 2, 0 if j % 3 == 0 else 5)[min(kids, 2)]       # j % 3 == 0: twins
+                q["geburtsjahr"] = year - q["alter"]
+                kids += 1
+            else:
+                q.update(elterngeld_claimed=True, monate_elterngeldbezug=0, arbeitsstunden_w=0.0 if w == 0 else 10.0, bruttolohn_m=w,
+                         elterngeld_nettoeinkommen_vorjahr_m=y, elterngeld_zu_verst_eink_vorjahr_y_sn=0.0, eink_selbst_m=0.0)
+        pop += hh
+    return pop
+
+
 def run(ctx, res):
     impl.setup()
     out = coqrun.prove("C16", PRELUDE + "Open Scope Z_scope.\n", obligations(), shards=12, timeout=1700)
@@ -166,7 +195,7 @@ def run(ctx, res):
                     if not q["kind"]:
                         q["bruttolohn_m"] = rnd.choice([600.0, 1000.0, 1500.0, 1999.0, 2000.0, 4000.0])
                         q["elterngeld_nettoeinkommen_vorjahr_m"] = rnd.choice([0.0, 2000.0, 2770.0, 9000.0, 1e6])
-                pop = pop + extra
+                pop = pop + extra + elterngeld_grid(rnd, year)
             df = popgen.to_frame(pop)
             tg = None
             extra = [c for pair in CAPS for c in pair]
@@ -211,6 +240,10 @@ def run(ctx, res):
                     mb = float(eg.get("mehrlingbonus", 0.0))
                     nm = outp["_elterngeld_anz_mehrlinge_fg"].to_numpy() if "_elterngeld_anz_mehrlinge_fg" in outp.columns else None
                     stats["caps_checked"] += len(df)
+                    stats["elterngeld_positive"] = stats.get("elterngeld_positive", 0) + int((outp["elterngeld_m"] > 0).sum())
+                    if "elterngeld_geschwisterbonus_m" in outp.columns:
+                        stats["elterngeld_with_sibling_bonus"] = stats.get("elterngeld_with_sibling_bonus", 0) + int(((outp["elterngeld_m"] > 0) & (outp["elterngeld_geschwisterbonus_m"] > 0)).sum())
+                        stats["elterngeld_at_maximum_with_bonus"] = stats.get("elterngeld_at_maximum_with_bonus", 0) + int(((outp["elterngeld_m"] >= float(mx)) & (outp["elterngeld_geschwisterbonus_m"] > 0)).sum())
                     for i in range(len(df)):
                         cap = float(mx) + sib + mb * (float(nm[i]) if nm is not None else 9.0) + 1.0
                         if float(outp["elterngeld_m"].iloc[i]) > cap:
